@@ -92,7 +92,7 @@ theorem strict_path_on_empty (env : Env) (e : E) (h : StrictStep e) : eval env e
   | fn0 n hn =>
     simp only [strict0, List.mem_cons, List.not_mem_nil, or_false] at hn
     rcases hn with rfl | rfl | rfl | rfl | rfl | rfl | rfl | rfl | rfl | rfl | rfl | rfl | rfl | rfl | rfl | rfl | rfl | rfl | rfl <;>
-      simp [eval, apply0, firstFn, lastFn, tailFn, distinctFn, distinctAux, notFn, toSingletonBoolean, mapRes, bools,
+      simp [eval, isClockFn, apply0, firstFn, lastFn, tailFn, distinctFn, distinctAux, notFn, toSingletonBoolean, mapRes, bools,
         onString, mathOn, convOn, convertsOn, Res.bind] <;> rfl
   | fn1 n a hn =>
     simp only [strict1, List.mem_cons, List.not_mem_nil, or_false] at hn
@@ -125,6 +125,20 @@ theorem expr_arith_empty (env : Env) (op : ArithOp) (l r : E) (input rv : List V
 example (p q : E) : StrictStep (.seq (.seq (.seq .this (.fn "where" (.argCons p .argNil))) (.fn "first" .argNil))
     (.seq (.fn "substring" (.argCons q (.argCons p .argNil))) (.neg (.fn "length" .argNil)))) := by
   repeat (first | constructor | simp [strict0, strict1, strict2])
+
+/-- the documented exceptions `now()` / `today()` / `timeOfDay()` are aggregates of nothing: on an empty input
+    they yield what they yield on any input (so they are rightly absent from the strict steps above) -/
+theorem clock_functions_ignore_empty_input (env : Env) (n : String) (h : isClockFn n = true) (input : List Val) :
+    eval env (.fn n .argNil) [] = eval env (.fn n .argNil) input := by
+  have hn : n ≠ "unimplemented!" := by
+    intro hc; subst hc; simp [isClockFn] at h
+  simp [eval, hn, h]
+
+/-- `upper()`, `lower()`, `round()`, `round(p)` propagate empty: no argument is looked at -/
+theorem new_strict_functions_on_empty (env : Env) (a : E) :
+    eval env (.fn "upper" .argNil) [] = .ok [] ∧ eval env (.fn "lower" .argNil) [] = .ok [] ∧
+    eval env (.fn "round" .argNil) [] = .ok [] ∧ eval env (.fn "round" (.argCons a .argNil)) [] = .ok [] := by
+  simp [eval, isClockFn, apply0, apply1, caseOn]
 
 end Expr
 
